@@ -492,6 +492,31 @@ let cmd_xw (args : string list) : string =
           "ok " ^ f ^ " | " ^ sb ^ " | parent=" ^ xw_poid par ^ " | wf=" ^ (if wf then "1" else "0") ^ " spec=" ^ (if spec then "1" else "0")))
   | _ -> "err badcmd"
 
+(* ---------- what a document encodes for a peer / for one transaction (Crdt/WriteBlocks.v: write_blocks_from, encode_update) ---------- *)
+(* the store is taken from the document's full state (blocks as the store has them; a block is deleted iff the delete set covers it) *)
+let wbf_store_of (u : update) =
+  let covered (c : n) (k : n) = (match im_contains u.u_ds c k with Some true -> true | _ -> false) in
+  List.map (fun (c, bs) -> (c, List.map (fun b -> (b, (match b with BGC (_, _) -> true | BSkip (_, _) -> false | BItem (i, _, _, _, _, _) -> covered i.cl i.ck))) bs)) u.u_blocks
+let cmd_wbf (args : string list) : string =
+  let b3 ((a, b), c) = " wf=" ^ (if a then "1" else "0") ^ " args=" ^ (if b then "1" else "0") ^ " cut=" ^ (if c then "1" else "0") in
+  match args with
+  | ["diff"; full; sv] ->
+    let (fb, sb) = (bytes_of_hex full, bytes_of_hex sv) in
+    (match decode_update_v1 (fuel_for fb) fb, decode_sv_v1 (fuel_for sb) sb with
+     | Ok (u, _), Ok (v, _) ->
+       let st = wbf_store_of u in
+       (match wbf_encode_diff_v1 st v with Ok (o, _) -> "ok " ^ hex_of_bytes o ^ b3 (wbf_hypotheses st v) | Panic s -> "panic " ^ hex_of_n s | Err e -> "err " ^ err_name e | Fuel -> "fuel")
+     | _ -> "err undecodable")
+  | ["txn"; full; ins; ds] ->
+    let fb = bytes_of_hex full in
+    (match decode_update_v1 (fuel_for fb) fb with
+     | Ok (u, _) ->
+       let st = wbf_store_of u in
+       let (i, d) = (adl_parse_ds ins, adl_parse_ds ds) in
+       (match wbf_encode_update_v1 st i d with Ok (o, _) -> "ok " ^ hex_of_bytes o ^ b3 (wbf_txn_hypotheses st i) | Panic s -> "panic " ^ hex_of_n s | Err e -> "err " ^ err_name e | Fuel -> "fuel")
+     | _ -> "err undecodable")
+  | _ -> "err badcmd"
+
 (* ---------- codecs ---------- *)
 let print_idm (v : (n * ((n * n) * ((n list * any) option) list) list) list) : string =
   let pa = function None -> "?" | Some (nm, vl) -> rawhex nm ^ "=" ^ print_any vl in
@@ -809,6 +834,7 @@ let dispatch (line : string) : string =
   | "ITG" :: args -> cmd_itg args
   | "RT" :: args -> cmd_rt args
   | "XW" :: args -> cmd_xw args
+  | "WBF" :: args -> cmd_wbf args
   | "DEC" :: args -> cmd_dec args
   | "ENC" :: args -> cmd_enc args
   | ["PING"] -> "ok pong"
